@@ -169,6 +169,49 @@ impl Argument for Raw {
     }
 }
 
+/// A user-defined renderer with state: it emits `bad` on its k-th call and `good` on every other one.  Whatever bytes end up in
+/// the command must be bytes that were checked.
+pub struct Flip {
+    pub calls: std::cell::Cell<u32>,
+    pub k: u32,
+    pub good: Vec<u8>,
+    pub bad: Vec<u8>,
+}
+impl Argument for Flip {
+    fn render(&self, buf: &mut BytesMut) {
+        let n = self.calls.get() + 1;
+        self.calls.set(n);
+        buf.put_slice(if n == self.k { &self.bad } else { &self.good });
+    }
+}
+
+/// Adding an argument whose renderer answers differently from call to call: if it is accepted, what is sent is still one line.
+fn stateful_renderer_breaks(c: &Command, good: &[u8]) -> Option<String> {
+    if good.contains(&b'\n') {
+        return None;
+    }
+    for k in 1..=4u32 {
+        for tail in [&b"\nkill"[..], &b"\ncommand_list_end\nkill"[..], &b"\n"[..]] {
+            let mut bad = good.to_vec();
+            bad.extend_from_slice(tail);
+            let mut c2 = c.clone();
+            let before = sent_bytes(&c2);
+            let arg = Flip { calls: std::cell::Cell::new(0), k, good: good.to_vec(), bad };
+            let r = c2.add_argument(arg);
+            let sent = sent_bytes(&c2);
+            let lfs = sent.iter().filter(|b| **b == b'\n').count();
+            if lfs != 1 || sent.last() != Some(&b'\n') {
+                return Some(format!("an argument whose renderer emits a line feed on its call #{k} only was {}; the command now sends {} lines: {}",
+                                    if r.is_ok() { "accepted" } else { "rejected" }, lfs, hex(&sent)));
+            }
+            if r.is_err() && sent != before {
+                return Some(format!("a rejected argument (renderer with a line feed on call #{k}) changed the command: {} -> {}", hex(&before), hex(&sent)));
+            }
+        }
+    }
+    None
+}
+
 fn err_kind(e: &mpd_protocol::command::CommandError) -> String {
     let s = format!("{}", e);
     if s == "empty command" {
@@ -256,6 +299,13 @@ pub fn run(toks: &[&str]) -> String {
             };
             let mut out = vec![format!("ok {}", hex(&sent_bytes(&c)))];
             for spec in &toks[2..] {
+                if let Some(raw) = spec.strip_prefix("r:") {
+                    let c0 = c.clone();
+                    let good = unhex(raw);
+                    if let Ok(Some(d)) = catch(move || stateful_renderer_breaks(&c0, &good)) {
+                        return format!("INCONSISTENT {}", d.replace(' ', "_"));
+                    }
+                }
                 match catch(|| add_spec(&mut c, spec)) {
                     Err(p) => return format!("panic {}", hex(p.as_bytes())),
                     Ok(None) => return "skip bad-spec".into(),
